@@ -48,7 +48,7 @@ pub open spec fn item_bytes(p: Prov, pos: int, n: int) -> Seq<u8> { Seq::new(n a
 impl<T: EtherCrabWireReadSized> CategoryIterator<T> {
     pub open spec fn wf(&self) -> bool { self.reader.wf() }
 
-/*@fn file=src/subdevice/eeprom.rs impl="impl<P, T> CategoryIterator<P, T>" name=next props=C12,C13
+/*@fn file=src/subdevice/eeprom.rs impl="impl<P, T> CategoryIterator<P, T>" name=next props=C12,C13 try_all=1
     requires old(self).wf(), T::PACKED_LEN > 0
     ensures
         final(self).wf(), final(self).reader.reader.mem_eq(&old(self).reader.reader), final(self).reader.end == old(self).reader.end,
@@ -59,12 +59,11 @@ impl<T: EtherCrabWireReadSized> CategoryIterator<T> {
             && T::unpack_spec(item_bytes(old(self).reader.reader, old(self).reader.byte_pos as int, T::PACKED_LEN as int)) == Ok::<T, WireError>(r->Ok_0->Some_0),
 @after "let mut buf = T::buffer();"
     let ghost pos0 = self.reader.byte_pos as int;
-@try "T::unpack_from_slice(buf.as_ref())?"
 @before "Ok(Some(T::unpack_from_slice(buf.as_ref())?))"
     proof { assert(buf.bytes() =~= item_bytes(old(self).reader.reader, pos0, T::PACKED_LEN as int)); }
 @*/
 
-/*@fn file=src/subdevice/eeprom.rs impl="impl<P, T> CategoryIterator<P, T>" name=next_sub_item props=C12,C13
+/*@fn file=src/subdevice/eeprom.rs impl="impl<P, T> CategoryIterator<P, T>" name=next_sub_item props=C12,C13 try_all=1
     requires old(self).wf(), S::PACKED_LEN > 0
     ensures
         final(self).wf(), final(self).reader.reader.mem_eq(&old(self).reader.reader), final(self).reader.end == old(self).reader.end,
@@ -74,7 +73,6 @@ impl<T: EtherCrabWireReadSized> CategoryIterator<T> {
             && S::unpack_spec(item_bytes(old(self).reader.reader, old(self).reader.byte_pos as int, S::PACKED_LEN as int)) == Ok::<S, WireError>(r->Ok_0->Some_0),
 @after "let mut buf = S::buffer();"
     let ghost pos0 = self.reader.byte_pos as int;
-@try "S::unpack_from_slice(buf.as_ref())?"
 @before "Ok(Some(S::unpack_from_slice(buf.as_ref())?))"
     proof { assert(buf.bytes() =~= item_bytes(old(self).reader.reader, pos0, S::PACKED_LEN as int)); }
 @*/
